@@ -368,7 +368,7 @@ func implProg(t []string) string {
 }
 
 func showCtrl(m ast.HSMSMessage) string {
-	return fmt.Sprintf("type=%s bytes=%s", hxs(m.Type()), hx(m.ToBytes()))
+	return fmt.Sprintf("type=%s bytes=%s", hxs(m.Type()), hx(keep(m.ToBytes()))) + earlierResults()
 }
 
 func implDec(b []byte) string {
